@@ -14,6 +14,7 @@ EXPLANATION = (
     "consumer reads instructions only per kind through `applicable_to[kind]` (all reads of applicable_to are enumerated; raw "
     "iterations over ghost vectors that ignore it are reported). R3: every attribute name registered on the derive is recognised. "
     " R4 imports the lookup contracts (a written-out pair is several entries, the shortcut one).")
+EXPLANATION += ' R5 the uniqueness diagnostics of validate_dedicated_member_attrs are switched on exactly for single-entry vectors (parent, literal, pattern, type_hint) and off for per-kind vectors (attrs, ghost_attrs), where a written-out pair of basics is legal like its shortcut.'
 NOT_DECIDED = ["token equality of the two expansions as such (follows only to the extent that all consumers are per-kind, which R2 enumerates)"]
 
 EXPANSION = {
